@@ -143,6 +143,16 @@ PROPS = {
                        "the property's quantifier.",
         "assumptions": ["Val::equal is structural equality (unit-tested)"],
     },
+    "C07": {
+        "module": "c07",
+        "explanation": "At each dynamic-type dispatch the accept set of the VM is computed from the MIR of the hook (which kinds of "
+                       "value have a non-error path) and the accept set of the checker from the MIR of the derive_* function (which "
+                       "Shape variants have a path that does not return TypeErr), by per-variant path analysis; required: VM set "
+                       "(mapped kind -> shape) is a subset of the checker set. R21a: map/filter/reduce targets; R21b: the forms the "
+                       "translator lowers after `.` on a tuple / resolved import; R21c: copy bases and `not`. Not decided: "
+                       "completeness of the checker in general (value-level rules of narrow, e.g. `[1] + [\"a\"]`).",
+        "assumptions": ["runtime kind -> Shape variant map of impl DeriveShape for Value (List->List, Tuple->Tuple, Str->Str)"],
+    },
 }
 
 
